@@ -47,6 +47,18 @@ CLAIMED = {
               "std member itself is bound); structural modification during iteration is excluded by the property."),
         technique="who-may-bind + check-dominates-use rules (structured dominance, comparison-fact extraction) over all template instantiations",
         ref="DESIGN.md section 4 C12"),
+    "C14": dict(
+        text=("Decides the mechanism the property rests on: (1) a complete inventory of every variable with static or thread "
+              "storage duration under include/chaiscript, in every template instantiation - each is constexpr, const of "
+              "arithmetic/char-pointer type, or one of five allow-listed objects with a stated reason, so no mutable "
+              "process-wide state exists through which one engine could see another's variables, functions, types, conversions "
+              "or used-file records; (2) the per-thread store keys its thread_local map by a const id taken from a "
+              "process-wide atomic counter in every constructor (never an address), uses only that key, and is not copyable - "
+              "so an engine created after another died, even at the same address and on threads that outlive both, starts "
+              "empty. Everything else an engine owns is a data member and dies with it. Not decided: value-level behaviour "
+              "of sequences of create/eval/destroy (follows from (1)+(2) and C++ object lifetime)."),
+        technique="static-storage inventory over the resolved program (all instantiations) + keyed-storage typestate rule",
+        ref="DESIGN.md section 4 C14"),
 }
 
 NOT_YET = "check not built yet in this session (design in DESIGN.md section 4); will be claimed once its rules run clean both ways"
